@@ -729,8 +729,8 @@ def rule_degreeparse(ctx):
     yield ob(R, f, "chord.scale_degree_to_semitone:offset-sign", sharp and flat_neg, "semitone = table value + (#sharps) or - (#flats)")
     # the result is the absolute distance above the root (degree 9 is 14 semitones): scale_degree_to_bitmap discards what does
     # not fit the bitmap length by comparing this value with the length, so a value wrapped to one octave is never discarded
-    wrapped = [x for r in rets for x in tm.walk(r.term) if (x.op == "bin" and x.a[0] == "%") or (x.op == "call" and call_name(x) in ("np.mod", "np.remainder", "builtins.divmod", "np.fmod"))]
-    yield ob(R, f, "chord.scale_degree_to_semitone:unwrapped", not wrapped, "the semitone distance is returned unreduced (the caller decides by its size whether the degree fits the bitmap)" if not wrapped else "the returned distance is reduced modulo an octave: degrees beyond the bitmap length (9, 11, 13) are folded into it instead of being discarded", node=rets[-1].node)
+    wrapped = [x for r in rets for x in tm.walk(r.term) if (x.op == "bin" and x.a[0] == "%") or (x.op == "call" and call_name(x) in ("np.mod", "np.remainder", "builtins.divmod", "np.fmod", "builtins.max", "builtins.min", "np.clip", "np.maximum", "np.minimum", "np.abs"))]
+    yield ob(R, f, "chord.scale_degree_to_semitone:unwrapped", not wrapped, "the semitone distance is returned as computed - neither reduced nor clamped (the caller decides by its size whether the degree fits the bitmap; a flattened unison is -1, i.e. 11 after the caller's own reduction)" if not wrapped else "the returned distance is reduced or clamped (%s): degrees beyond the bitmap length (9, 11, 13) are folded into it instead of being discarded, a flattened unison (b1) no longer comes out one below the root" % ", ".join(sorted({call_name(x) or "%" for x in wrapped})), node=rets[-1].node)
 
 
 def rule_strictbass(ctx):
